@@ -104,6 +104,21 @@ def fiveDataAccess (p : Pipe.PSt) : Option Int :=
   | some x =>
     if (Rv.ctlOf x.instr).memWrite = some true || (Rv.ctlOf x.instr).memRead = some true then x.result else none
 
+/-- Single-stage mode: the `memory_address` of the display register — the ALU result (`x[rs1] + imm`, not reduced) of the
+    load or store executed by the last step that returned normally; `None` for any other instruction. -/
+def singleDataAccess (before : Option Rv.St) : Option Int :=
+  match before with
+  | none => none
+  | some s =>
+    match s.imem.instrAt s.pc with
+    | none => none
+    | some i =>
+      if i.op.ty = .memI || i.op.ty = .s then
+        match Rv.aluCompute i (Rv.accessRegs i s.regs).d1 (Rv.accessRegs i s.regs).imm with
+        | some (_, r) => r
+        | none => none
+      else none
+
 /-- `get_data_cache_stats()`; `shown` is the access the pipeline view holds (`fiveDataAccess`, or the
     `memory_address` of the single-stage register).  `None` without a data cache. -/
 def dataStats (m : Rv.MemSys) (shown : Option Int) : Option Stats :=
@@ -118,7 +133,27 @@ def instrStats (im : Rv.IMem) (fetched : Option Int) : Option Stats :=
   | some c => some (Stats.ofCounters c.hits c.accesses c.lastHit fetched)
 
 def fiveDataStats (p : Pipe.PSt) : Option Stats := dataStats p.st.mem (fiveDataAccess p)
+def singleDataStats (s : Rv.St) (before : Option Rv.St) : Option Stats := dataStats s.mem (singleDataAccess before)
 def fiveInstrStats (p : Pipe.PSt) : Option Stats := instrStats p.st.imem (p.l0.map (·.addr))
 def singleInstrStats (s : Rv.St) (before : Option Rv.St) : Option Stats := instrStats s.imem (singleLatch before)
+
+/-! ### performance-metrics text -/
+
+/-- The counter lines of `get_performance_metrics_str()` = `str(RiscvPerformanceMetrics)`, in order.  The wall-clock lines
+    (`execution time`, `instructions per second`) and the `cycles per instruction` line (a float formatted with `.2f`)
+    are not modelled.  Note the blank behind the instruction count. -/
+def metricsLines (s : Rv.St) : List String :=
+  [ "instructions: " ++ String.ofList (Fmt.natStr 10 s.instrs) ++ " ",
+    "branches: " ++ String.ofList (Fmt.natStr 10 s.branches),
+    "procedures: " ++ String.ofList (Fmt.natStr 10 s.procs),
+    "cycles: " ++ String.ofList (Fmt.natStr 10 s.cycles),
+    "stalls: " ++ String.ofList (Fmt.natStr 10 s.stalls),
+    "flushes: " ++ String.ofList (Fmt.natStr 10 s.flushes) ]
+
+/-- The counter lines of `str(ToyPerformanceMetrics)` (again without the wall-clock lines). -/
+def toyMetricsLines (t : Toy.TSim) : List String :=
+  [ "instructions: " ++ String.ofList (Fmt.natStr 10 t.s.instrs) ++ " ",
+    "cycles: " ++ String.ofList (Fmt.natStr 10 t.s.cycles),
+    "branches: " ++ String.ofList (Fmt.natStr 10 t.s.branches) ]
 
 end ArchSim.SimViews
